@@ -11,7 +11,8 @@ Lemma recs_of_snoc es e : recs_of (es ++ [e]) = apply_event (recs_of es) e.
 Proof. unfold recs_of. rewrite fold_left_app. reflexivity. Qed.
 Lemma wlog_of_snoc es e : wlog_of (es ++ [e]) = put2 (wlog_of es) (e_ws e) (e_woff e) e.
 Proof. unfold wlog_of. rewrite fold_left_app. reflexivity. Qed.
-Lemma proj_of_snoc es e : proj_of (es ++ [e]) = put2 (proj_of es) (e_ws e) (e_woff e) (e_tag e).
+Lemma proj_of_snoc d es e :
+  proj_of d (es ++ [e]) = if trig d e then put2 (proj_of d es) (e_ws e) (e_woff e) (e_tag e) else proj_of d es.
 Proof. unfold proj_of. rewrite fold_left_app. reflexivity. Qed.
 
 Definition scan_of (es : list event) : part := scan (plog_of es).
@@ -250,21 +251,28 @@ Proof.
   - rewrite app_nil_r. apply IH.
 Qed.
 
-(* the view rows are the WLog rows reduced to the stamp *)
-Lemma proj_of_get es ws w : get2 (proj_of es) ws w = option_map e_tag (get2 (wlog_of es) ws w).
-Proof.
-  destruct (snoc_cases es) as [->|_]; [reflexivity|].
-  induction es as [|e r IH] using rev_ind; [reflexivity|].
-  rewrite proj_of_snoc, wlog_of_snoc.
-  destruct (N.eq_dec (e_ws e) ws) as [<-|Hne]; [destruct (N.eq_dec (e_woff e) w) as [<-|Hw]|].
-  - rewrite !get2_put2_eq. reflexivity.
-  - rewrite !get2_put2_neq by (right; exact Hw). exact IH.
-  - rewrite !get2_put2_neq by (left; exact Hne). exact IH.
-Qed.
-
 (* a legal next event's WLog slot is free *)
 Lemma wlog_slot_free es e : wf es -> ok_event es e -> get2 (wlog_of es) (e_ws e) (e_woff e) = None.
 Proof.
   intros Hw (Hoff & _). rewrite (nextW_scan es Hw) in Hoff. rewrite wlog_of_get by exact Hw.
   destruct (N.eqb_spec (e_woff e) 0); [reflexivity|]. apply nth_error_None. lia.
+Qed.
+
+(* the view of a projector: the WLog rows whose event triggers it, reduced to the stamp *)
+Lemma proj_of_get d es : wf es -> forall ws w,
+  get2 (proj_of d es) ws w =
+  match get2 (wlog_of es) ws w with
+  | Some e => if trig d e then Some (e_tag e) else None
+  | None => None
+  end.
+Proof.
+  induction 1 as [|es e Hw IH Ho]; intros ws w; [reflexivity|].
+  rewrite proj_of_snoc, wlog_of_snoc.
+  pose proof (wlog_slot_free es e Hw Ho) as Hfree.
+  destruct (N.eq_dec (e_ws e) ws) as [<-|Hne]; [destruct (N.eq_dec (e_woff e) w) as [<-|Hw']|].
+  - rewrite get2_put2_eq. destruct (trig d e).
+    + apply get2_put2_eq.
+    + rewrite IH, Hfree. reflexivity.
+  - rewrite get2_put2_neq by (right; exact Hw'). destruct (trig d e); [rewrite get2_put2_neq by (right; exact Hw')|]; apply IH.
+  - rewrite get2_put2_neq by (left; exact Hne). destruct (trig d e); [rewrite get2_put2_neq by (left; exact Hne)|]; apply IH.
 Qed.
